@@ -23,6 +23,27 @@ Theorem c18_tamper : forall o r ctx payload kps cfg env env' ctx' privs p res,
 Proof. exact tamper_same_payload. Qed.
 Print Assumptions c18_tamper.
 
+(* ... and it opens ONLY under the sealing context and with the original
+   envelope id: multi-field tampering (envelope id rewritten, context hash
+   recomputed for another context, threshold/grants changed at the same time)
+   cannot make it open under a different context *)
+Theorem c18_tamper_binds_context : forall o r ctx payload kps cfg env env' ctx' privs p res,
+  build o r ctx payload kps cfg = Ok env ->
+  (forall x, In x (r_nonce r) -> is_keyed_out x = false) ->
+  keyed_from (env_bytes env) (e_ct env') ->
+  unlock o ctx' env' privs = Ok (Some p, res) ->
+  p = payload /\ ctx' = ctx /\ e_id env' = e_id env.
+Proof. exact tamper_binds_context. Qed.
+Print Assumptions c18_tamper_binds_context.
+
+(* because the key-derivation and grant-encryption context strings are injective
+   in (envelope id, context[, grant index]): both fields are length-prefixed *)
+Theorem c18_derivation_contexts_injective : forall id ctx gi id' ctx' gi',
+  (kd_ctx id ctx = kd_ctx id' ctx' -> id = id' /\ ctx = ctx') /\
+  (grant_ctx id ctx gi = grant_ctx id' ctx' gi' -> id = id' /\ ctx = ctx' /\ gi = gi').
+Proof. intros. split; [apply kd_ctx_inj|apply grant_ctx_inj]. Qed.
+Print Assumptions c18_derivation_contexts_injective.
+
 (* unsealing an arbitrary envelope (arbitrary decoded fields, arbitrary keys,
    arbitrary oracle answers) never panics; the threshold field is a uint32 *)
 Theorem c18_total : forall o ctx env privs, 0 <= e_threshold env -> unlock o ctx env privs <> Panic.
